@@ -51,6 +51,7 @@ struct World {
 	unsigned other_closed = 0;              // read-side sections that lay in a period closed by a different agent (approximation: a reader's object was retired by a callback while a third agent had registered barriers)
 	std::verif_atomic<Obj *> slot[2];
 	unsigned scripts_left = 0;
+	unsigned sync_barriers = 0;
 };
 World *W = nullptr;
 thread_local int my_agent = -1;
@@ -130,7 +131,18 @@ void verif_case(Ctx &c) {
 					case 0: case 1: case 2: { Obj *n = new_obj(version++); Obj *old = w.slot[op & 1].exchange(n, std::memory_order_acq_rel); register_barrier(a, old); break; }
 					case 3: case 4: qs(a); break;
 					case 5: case 6: do_run(a); break;
-					default: read_side(a, op >> 3); break;
+					default: if((op >> 3) & 1) {
+							// synchronous variant: replace the object, wait with quiescent_barrier(), then retire the old object directly
+							Obj *n = new_obj(version++); Obj *old = w.slot[op & 1].exchange(n, std::memory_order_acq_rel);
+							int id; { dsched::Ignore ig; BarrierInfo bi; bi.id = (int)w.barriers.size(); bi.owner = a; bi.victim = nullptr; for(unsigned k = 0; k < nagents; k++) if(w.online[k] && !w.in_qs[k]) bi.waiting.insert(k); id = bi.id; w.barriers.push_back(bi); w.in_qs[a] = 1; }
+							mark_quiescent(a);          // the caller reports quiescent states itself while it waits
+							ag[a]->quiescent_barrier();
+							{ dsched::Ignore ig; w.in_qs[a] = 0; auto &bi = w.barriers[id]; bi.fired = true;
+							  if(!bi.waiting.empty() && w.error.empty()) { char buf[200]; snprintf(buf, sizeof buf, "quiescent_barrier() of agent %d returned although agent %d, online when it was called, has not been quiescent or offline since", a, *bi.waiting.begin()); w.error = buf; } }
+							old->a = DEAD; old->b = DEAD; old->retired = true;      // plain writes, as a callback would do
+							{ dsched::Ignore ig; w.sync_barriers++; }
+						} else read_side(a, op >> 3);
+						break;
 					}
 				} else if(a == 2 && third_cycles) {   // keeps grace periods moving on its own
 					switch(op % 4) {
@@ -177,6 +189,7 @@ void verif_case(Ctx &c) {
 	unsigned nb = (unsigned)w.barriers.size(); bool third = false; for(auto &b : w.barriers) if(b.owner == 2) third = true;
 	if(third) c.tag("third-agent-registered-barriers");
 	if(nb >= 2) c.tag("several-barriers");
+	if(w.sync_barriers) c.tag("quiescent_barrier-concurrent");
 	c.tagf("switches-%s", r.switches < 5 ? "0-4" : r.switches < 20 ? "5-19" : "20+");
 	c.nontrivial = nb >= 1 && r.switches >= 3;
 	W = nullptr;
